@@ -163,7 +163,7 @@ def _r1_one(run, R1, w, fi):
   if not (ok and g_ok):
     return
   dn = dele[0][0]
-  first = H.nodes_of_stmts(cfg, chain[0][0].body[:1])
+  first = H.nodes_of_stmts(cfg, chain[-1][0].body[:1])
   ok_t = dn.id not in cfg.reach(first, removed={tn.id})
   ok_r = bool(rej) and dn.id not in cfg.reach(first, removed=rej) and \
       all(r in cfg.reach_after({tn.id}) and tn.id not in cfg.reach_after({r}) for r in rej)
@@ -296,7 +296,8 @@ def r3_row_ids(run, w):
       # what is translated is the requested ids: the parameter, or a per-element int() copy of it
       src = tc.args[1].id
       if src != ps[2]:
-        defs = [cfg.nodes[d] for d in du.rebinders(src) if d != tn.id]
+        defs = [cfg.nodes[d] for d in du.rebinders(src)
+                if d != tn.id and tn.id in cfg.reach_after({d})]
         ok = len(defs) == 1 and isinstance(defs[0].stmt, ast.Assign) and \
             isinstance(defs[0].stmt.value, ast.ListComp) and \
             not defs[0].stmt.value.generators[0].ifs and \
